@@ -4,6 +4,7 @@
 From RichModel Require Import Prelude Cells Segments SpecCells Frames SpecFrames.
 From RichGen Require Import FrameBoxes.
 From RichProofs Require Import CellsP SegmentsP SegmentsP2 FramesP FramesP2 FramesP3 FramesP4 FramesP5 FramesP6.
+From RichProofs.bridge Require BridgeBar BridgeProgressBar.   (* tie 1 (T2): Bar.__rich_console__ regenerated from rich/bar.py *)
 
 (* (1) Padding: all lines `width` cells (= W when expanding); t blank rows, the child's own lines
    (rendered alone at the inner width) unchanged and in order between exactly l and r spaces, b rows.
